@@ -190,13 +190,17 @@ func Explode(dstDir string, inputShard string) error {
 	}
 
 	// best effort rename shards.
+	var renameErr error
 	for tmpFn, dstFn := range exploded {
 		if err := os.Rename(tmpFn, dstFn); err != nil {
 			log.Printf("explode: rename failed: %s", err)
+			// The compound shard is already gone: a repository whose shard could
+			// not be renamed is lost and the caller must be told.
+			renameErr = errors.Join(renameErr, fmt.Errorf("zoekt.Explode: %w", err))
 		}
 	}
 
-	return nil
+	return renameErr
 }
 
 type shardBuilderFunc func(ib *ShardBuilder)
